@@ -26,6 +26,7 @@ class World(object):
             self.topics[t] = {p: self.pick_leader() for p in range(rnd.randint(1, 4))}
             self.terr[t] = 0
         self.coords = {}                  # group -> node
+        self.hidden = set()               # topics currently reported with LeaderNotAvailable (5) and NO partitions
         self.anchor = None                # a broker that never dies or moves (keeps the cluster reachable)
 
     def fresh_addr(self):
@@ -129,6 +130,10 @@ class World(object):
     def topic_trouble(self):
         if self.topics:
             t = self.rnd.choice(sorted(self.topics))
+            self.hidden.discard(t)
+            if self.rnd.random() < 0.35:
+                self.hidden.add(t)
+                return []
             self.terr[t] = self.rnd.choice([0, 5, 5, 3])
             for p in self.topics[t]:
                 if self.rnd.random() < 0.4:
@@ -150,7 +155,9 @@ class World(object):
         ts = sorted(self.topics) if not topics else list(topics)
         out = []
         for t in ts:
-            if t in self.topics:
+            if t in self.hidden and t in self.topics:
+                out.append((5, t, []))
+            elif t in self.topics:
                 parts = [(0, p, l) for p, l in sorted(self.topics[t].items())]
                 if shuffle:
                     self.rnd.shuffle(parts)
@@ -314,6 +321,24 @@ def gen_hosts(rnd):
     return hs
 
 
+def vanish_step(rnd, W, ops, before):
+    """a KNOWN topic lost partitions / was deleted / reports an error: refresh it (the answer lists fewer or no
+    partitions), then ask for a partition the client knew before"""
+    lost = [(t, p) for t, ps in before.items() for p in ps
+            if t not in W.topics or t in W.hidden or p not in W.topics[t] or W.topics[t][p] == -1]
+    if not lost:
+        return
+    t, p = rnd.choice(lost)
+    full = rnd.random() < 0.3
+    pl = W.plan()
+    pl["metas"] = [W.raw_meta([] if full else [t])]
+    ops.append({"op": "meta", "topics": [] if full else [t], "plan": pl})
+    keys = dedup([(t, p)] + W.payload_keys(rnd.randint(0, 2)))
+    rnd.shuffle(keys)
+    ops.append({"op": "send", "api": rnd.choice(["direct", "fetch", "offset", "produce"]), "group": None,
+                "fail": rnd.random() < 0.5, "expect": True, "payloads": [list(k) for k in keys], "plan": W.plan()})
+
+
 def gen_history(rnd, flavour="mixed", nops=None):
     """-> history dict {"hosts", "form", "universe", "seed", "ops"}"""
     W = World(rnd)
@@ -325,6 +350,7 @@ def gen_history(rnd, flavour="mixed", nops=None):
     honest = flavour == "honest"
     if rnd.random() < 0.6:
         ops.append({"op": "meta", "topics": [], "plan": W.plan()})
+    gone_before = {t: sorted(W.topics[t]) for t in W.topics}
     while len(ops) < nops:
         x = rnd.random()
         if x < 0.42:
@@ -349,6 +375,9 @@ def gen_history(rnd, flavour="mixed", nops=None):
                     ops.append({"op": "drop", "node": n})
             if name == "kill_broker" and rnd.random() < 0.6:
                 ops.append({"op": "meta", "topics": [], "plan": W.plan()})      # full refresh: the dead broker's client goes
+            if name in ("delete_topic", "topic_trouble", "resize_topic") and rnd.random() < 0.6:
+                vanish_step(rnd, W, ops, gone_before)
+            gone_before = {t: sorted(W.topics[t]) for t in W.topics}
             continue
         elif x < 0.87:
             op = {"op": "reset_topics", "topics": [rnd.randint(0, UNIVERSE) for _ in range(rnd.randint(0, 2))]}
@@ -585,9 +614,25 @@ class Tracker(object):
     def __init__(self, hosts):
         self.known = set()           # node ids ever named by a merged response (client.py:974 only ever adds)
         self.boot = sorted(set((h, p) for h, p in hosts))
+        self.addr_of = {}            # node -> address the LATEST response naming the node gave
+        self.told = {}               # (topic, partition) -> leader (-1: none) as the LAST metadata answer for the topic said
+        self.unsure = set()          # topics whose last answer was untruthful (the merge stopped half-way)
 
     def merged(self, raw):
-        self.known.update(decode_raw(raw)[0])
+        brokers, topics = decode_raw(raw)
+        self.known.update(brokers)
+        for n, a in brokers.items():
+            self.addr_of[n] = tuple(a)
+        truthful = raw_truthful(raw)
+        for t, (_err, parts) in topics.items():
+            for k in [k for k in self.told if k[0] == t]:
+                del self.told[k]
+            if truthful:
+                self.unsure.discard(t)
+                for p, l in parts.items():
+                    self.told[(t, p)] = l
+            else:
+                self.unsure.add(t)
 
 
 def topic_view(view, t):
@@ -704,6 +749,48 @@ def mon_connect_addr(ob, bad):
         if c is not None and not c[2] and tuple(q["addr"]) != tuple(c[:2]):
             bad.append(("C08_next_connect_address", "unconnected broker client dialled another address than its target",
                         q["node"], q["addr"], c[:2]))
+
+
+def mon_told(ob, tr, bad):
+    """what the metadata ANSWERS said (not the client's own cache view):
+    - C07_routing: a payload is only sent to the node the LAST metadata answer for its topic named as leader of its
+      partition (checked for payloads whose topic no lookup of this very call touched);
+    - C07_request_address / C08_next_connect_address: a broker client without a live connection dials the address the
+      LATEST response naming its node gave (checked on calls without lookups)."""
+    op, before = ob["op"], ob["before"]
+    if op["op"] not in ("send", "sendcoord") or before.get("closed"):
+        return
+    loads = ob["pump"]["loads"]
+    reqs = ob["pump"]["reqs"]
+    if not loads:
+        for q in reqs:
+            c = before["clients"].get(q["node"])
+            want = tr.addr_of.get(q["node"])
+            if (c is None or not c[2]) and want is not None and tuple(q["addr"]) != tuple(want):
+                bad.append(("C07_request_address", "an unconnected broker client dialled another address than the latest response gave for its node",
+                            q["node"], list(q["addr"]), list(want)))
+    if op["op"] != "send" or op.get("group") is not None:
+        return
+    touched = set()
+    for ld in loads:
+        if ld.get("kind") == 0 and ld.get("resp") is not None:
+            touched.update(decode_raw(ld["resp"])[1])
+        elif ld.get("kind") == 0:
+            touched.update(ld.get("asked") or [])
+    keys = [tuple(k) for k in op["payloads"]]
+    tags = ob["tags"]
+    for q in reqs:
+        if q["tags"] is None:
+            continue
+        for tg in q["tags"]:
+            if tg not in tags:
+                continue
+            k = keys[tags.index(tg)]
+            if k[0] in touched or k[0] in tr.unsure:
+                continue
+            if tr.told.get(k, None) != q["node"]:
+                bad.append(("C07_routing", "payload sent to a node the last metadata answer for its topic does not name as its leader",
+                            list(k), q["node"], tr.told.get(k, "partition not in the last answer")))
 
 
 def expected_nodes(ob):
@@ -989,6 +1076,7 @@ def track_load(ld, tr):
         tr.merged(ld["resp"])
     elif ld.get("kind") == 1 and ld["resp"][0] == 0:
         tr.known.add(ld["resp"][1])
+        tr.addr_of[ld["resp"][1]] = (ld["resp"][2], ld["resp"][3])
 
 
 def track(ob, tr):
@@ -1018,7 +1106,11 @@ def monitors(hist, obs, which):
                 mon_coord(ob, bad)
             if kind in ("reset_all", "reset_topics", "reset_groups"):
                 mon_reset(ob, bad)
+            mon_told(ob, tr, bad)
+            for ld in loads_of(ob):
+                track_load(ld, tr)
         else:
+            mon_told(ob, tr, bad)
             if kind in ("send", "sendcoord"):
                 mon_routing(ob, bad)
             if kind == "send":
